@@ -393,9 +393,11 @@ def export_stats(ctx):
   for k, h in STATS.items():
     for sub, n in h.items():
       ctx.count(k, sub, n)
+  from harness.core import InfraError
   if not STATS.get('batched_theorem', {}).get('side-conditions hold'):
-    from harness.core import InfraError
     raise InfraError('no generated case was inside the domain of the batched refinement theorems')
+  if ctx.pid == 'C08' and STATS.get('heap_tie', {}).get('records compared', 0) < 100:
+    raise InfraError('the heap tie (identity pattern of assign outputs vs Model/PipeHeap.lean) compared fewer than 100 records')
 
 
 def key_shapes(spec):
@@ -435,11 +437,48 @@ def run_impl(case):
 
 
 def model_requests(case):
-  return [dict(model='pipe', specs=case['specs'], src=case['src'], ignore=bool(case.get('ignore')))]
+  reqs = [dict(model='pipe', specs=case['specs'], src=case['src'], ignore=bool(case.get('ignore')))]
+  plan = L.heap_plan(case)
+  if plan:
+    reqs += plan
+  return reqs
 
 
 def model_obs(case, resps):
+  if len(resps) > 1:
+    heap = list(resps[1:])
+    if case['src'].get('twice'):
+      heap = heap + heap
+    return dict(resps[0], heap=heap)
   return resps[0]
+
+
+def compare_heap(impl, model):
+  """The heap-aware model of `_get_outputs` (Model/PipeHeap.lean, theorem C08_assign_no_write) against the real
+  objects: per record, the containers of the output that ARE containers of the caller's record (identity), the value,
+  and the functional model."""
+  heap, shared = model['heap'], impl.get('shared')
+  if shared is None or impl.get('err') is not None or model.get('err') is not None or len(heap) != len(shared):
+    _stat('heap_tie', 'skipped (the run raised)')
+    return None
+  for i, (hp, sh) in enumerate(zip(heap, shared)):
+    _stat('heap_tie', 'records compared')
+    if 'driver_error' in hp:
+      return f"pipeheap driver: {hp['driver_error']}"
+    if hp['err'] is not None:
+      return f"record {i}: the heap model raises {hp['err']}, the code does not"
+    if not hp['agree']:
+      return f'record {i}: the heap model and the functional model of _get_outputs differ'
+    if hp['written']:
+      return f"record {i}: the heap model wrote {hp['written']} pre-existing cells (contradicts C08_assign_no_write)"
+    if hp['out'] != impl['out'][i]:
+      return f"record {i}: heap model value {jdump(hp['out'])[:200]} / code {jdump(impl['out'][i])[:200]}"
+    a, b = sorted(jdump(p) for p in hp['shared']), sorted(jdump(p) for p in sh)
+    if a != b:
+      return (f'record {i}: containers of the output that are objects of the caller\'s record: heap model {a} / '
+              f'real objects {b}')
+    _stat('heap_tie_shared_containers', min(len(a), 4))
+  return None
 
 
 def _multiset(xs):
@@ -510,6 +549,10 @@ def compare(impl, model):
       return 'reference interpreters differ on sink logs'
   if 'refb_ok' in model:
     d = compare_batched(impl, model)
+    if d is not None:
+      return d
+  if 'heap' in model:
+    d = compare_heap(impl, model)
     if d is not None:
       return d
   # the two formulations of the Lean reference (operator-major / record-major) agree on clean runs
